@@ -2,7 +2,7 @@
 import exportchecks
 
 PROP = "C06"
-SLICES = "hist spell stale prev imports".split()
+SLICES = "hist spell stale prev imports samefile".split()
 
 
 def run(tier):
